@@ -354,7 +354,7 @@ def _safe(err):
         return '<unprintable>'
 
 
-class C13:
+class C13Base:
     ID = 'C13'
     ENGINE = 'e2'
     LEVEL = 'exploration'
@@ -452,3 +452,13 @@ class C13:
         if task.get('want_trace'):
             res['trace'] = trace
         return res
+
+
+from .taps import TapMixin, WorkerTap  # noqa: E402
+
+
+class C13(TapMixin, C13Base):
+    """Two tasks in three explore schedules of the dispatcher with stub
+    handlers (E2); the third runs real jobs through the real process_task
+    on real repositories (E1 tap)."""
+    TAP_CLASS = WorkerTap
